@@ -47,6 +47,13 @@ fn some_solutions(rng: &mut Rng) -> (Vec<Solution>, usize) {
             predicate_data: (0..slots).map(|_| (0..rng.range(0, 6)).map(|_| rng.word()).collect()).collect(),
             state_mutations: if i == 0 { vec![Mutation { key: vec![1], value: vec![2] }] } else { vec![] } }
     }).collect();
+    let mut sols = sols;
+    // several solutions of the same predicate with different data (and sometimes an exact duplicate)
+    if n > 1 && rng.chance(1, 3) {
+        let addr = sols[0].predicate_to_solve.clone();
+        for s in sols.iter_mut().skip(1) { s.predicate_to_solve = addr.clone(); }
+        if rng.chance(1, 4) { let d = sols[0].predicate_data.clone(); sols[n - 1].predicate_data = d; }
+    }
     let ix = rng.below(n as u64) as usize;
     (sols, ix)
 }
